@@ -357,6 +357,9 @@ func (ex *Exec) callContract(st *State, c *ssa.Call, callee *ssa.Function, args 
 		return nil
 	}
 	if fc == nil {
+		if forks, ok := ex.inlineCall(st, c, callee, args); ok {
+			return forks
+		}
 		ex.failObl("contract", "uncontracted-callee/"+name, "in-package callee without contract", ex.fnTags(), c)
 		st.vals[c] = ex.freshOfType(st, "r_"+callee.Name(), c.Type(), false)
 		// unknown result; only what the callee may write (syntactic may-write set) is forgotten
@@ -506,4 +509,69 @@ func (ex *Exec) freshResult(st *State, base string, t types.Type) SV {
 		st.assume(Lt(sv.T, st.next))
 	}
 	return sv
+}
+
+// inlineCall executes a small helper without contract in place of the call:
+// only loop-free, non-recursive, defer-free functions of the package, to a
+// depth of three. Its safety obligations are generated at the call site's
+// function; its locals disappear when it returns.
+func (ex *Exec) inlineCall(st *State, c *ssa.Call, callee *ssa.Function, args []SV) ([]*State, bool) {
+	if c == nil || ex.inlineDepth >= 3 || callee.Blocks == nil || len(st.defers) > 0 || len(callee.FreeVars) > 0 {
+		return nil, false
+	}
+	for _, b := range callee.Blocks {
+		for _, s := range b.Succs {
+			if s.Dominates(b) {
+				return nil, false // a loop needs an invariant, hence a contract
+			}
+		}
+		for _, in := range b.Instrs {
+			switch v := in.(type) {
+			case *ssa.Defer, *ssa.Go:
+				return nil, false
+			case *ssa.Call:
+				if f, ok := v.Call.Value.(*ssa.Function); ok && f == callee {
+					return nil, false
+				}
+			}
+		}
+	}
+	if len(args) != len(callee.Params) {
+		return nil, false
+	}
+	for i, p := range callee.Params {
+		st.vals[p] = args[i]
+	}
+	var rets []inlineRet
+	saved := ex.collector
+	ex.collector = &rets
+	ex.inlineDepth++
+	ex.runBlock(st, callee.Blocks[0], 0)
+	ex.inlineDepth--
+	ex.collector = saved
+	var out []*State
+	for _, r := range rets {
+		s := r.st
+		for a := range s.cells {
+			if a.Parent() == callee {
+				delete(s.cells, a)
+			}
+		}
+		switch len(r.results) {
+		case 0:
+			s.vals[c] = SV{K: KUnit}
+		case 1:
+			s.vals[c] = r.results[0]
+		default:
+			s.vals[c] = SV{K: KTuple, Tuple: r.results}
+		}
+		out = append(out, s)
+	}
+	ex.p.inlined[ex.p.contractName(callee)] = true
+	if len(out) == 0 {
+		// every path of the helper ended in a reported failure
+		st.dead = true
+		return []*State{}, true
+	}
+	return out, true
 }
